@@ -162,6 +162,16 @@ def parseClaims : List String → Option (List Claim)
 def claimTokens (c : Claim) : String :=
   s!"{c.chainId} {String.ofList c.bridge} {c.nonce} {hex c.symbol} {String.ofList c.token} {String.ofList c.sender} {hex c.validator} {hex c.receiver} {c.amount} {c.claimType}"
 
+def showContent (k : Content) : String :=
+  s!"ok recv={hex k.receiver} amount={k.amount} sym={hex k.symbol} token={String.ofList k.token} type={k.claimType}"
+
+/-- an observed content: recv amount sym token type -/
+def parseContent : List String → Option Content
+  | [recv, amount, sym, token, ty] => do
+      let recv ← unhex recv; let amount ← amount.toInt?; let sym ← unhex sym; let ty ← ty.toNat?
+      some { receiver := recv, amount := amount, symbol := sym, token := token.toList, claimType := ty }
+  | _ => none
+
 def handle : List String → Option String
   -- the two paths into EthereumEventToEthBridgeClaim (direct, and through ABI packing + logToEvent)
   | "eth2claim" :: args => do
@@ -202,6 +212,20 @@ def handle : List String → Option String
       let kind ← kind.toNat?; let attrs ← parseAttrs attrs; let table ← parsePairs table
       let m ← parseMsg rest
       some (toString (msgFaithful kind (mkEnv none [] table) attrs m))
+  | "content" :: args => do
+      let (env, val, ev) ← parseEthArgs args
+      some (showExcept (fun c => showContent (oracleContent c)) (ethToClaim env val ev))
+  | "chk" :: "c16.content" :: _tag :: rest => do
+      let (env, _, ev) ← parseEthArgs (rest.take 13)
+      let k ← parseContent (rest.drop 13)
+      some (toString (contentFaithful env ev k))
+  | "chk" :: "c16.contentdistinct" :: _tag :: args => do
+      let (env, _, evs, rest) ← parseBatch args
+      match evs, rest with
+      | [e1, e2], [t1, t2] => do
+          let t1 ← unhex t1; let t2 ← unhex t2
+          some (toString (contentDistinctOK env e1 e2 t1 t2))
+      | _, _ => none
   | "batch" :: args => do
       let (env, val, evs, _) ← parseBatch args
       match handleBatch env val evs with
